@@ -3,6 +3,7 @@ package main
 // Evaluation of specification expressions into SMT terms.
 
 import (
+	"reflect"
 	"regexp"
 	"hash/fnv"
 	"golang.org/x/tools/go/ssa"
@@ -789,6 +790,27 @@ func (c *specCtx) call(t *ast.CallExpr, n *SpecNode) Val {
 			return boolVal(app("bvult", app("iref", v.L[0]), c.st.alloc))
 		}
 		return boolVal(app("bvult", v.L[0], c.st.alloc))
+	case "structTag":
+		// structTag(T, "Field", "key"): the struct tag value of the field as declared (a constant of the
+		// program text: wire formats that reflection-driven codecs derive from tags are pinned this way)
+		tv := arg(0)
+		fl, ok1 := t.Args[1].(*ast.BasicLit)
+		kl, ok2 := t.Args[2].(*ast.BasicLit)
+		if !ok1 || !ok2 {
+			return c.fail("structTag: field and key must be string literals")
+		}
+		field, _ := strconv.Unquote(fl.Value)
+		key, _ := strconv.Unquote(kl.Value)
+		stT, ok := tv.T.Underlying().(*types.Struct)
+		if !ok {
+			return c.fail("structTag: %s is not a struct type", tv.T)
+		}
+		for i := 0; i < stT.NumFields(); i++ {
+			if stT.Field(i).Name() == field {
+				return Val{T: types.Typ[types.String], L: []string{c.x.strLit(reflect.StructTag(stT.Tag(i)).Get(key))}}
+			}
+		}
+		return c.fail("structTag: %s has no field %s", tv.T, field)
 	case "typeIs":
 		// typeIs(x, T): dynamic type of interface x is T
 		v := arg(0)
